@@ -17,7 +17,7 @@ if os.path.exists(vf):
     for l in open(vf):
         if l.startswith(tag + ":"):
             ver = l.strip()
-m["made_against_repo_commit"] = m.get("made_against_repo_commit", "7c1f2b1")
+m["made_against_repo_commit"] = m.get("made_against_repo_commit", subprocess.run(["git", "-C", "/repo", "log", "--format=%h", "-1"], capture_output=True, text=True).stdout.strip())
 m["confirmed_by_me"] = ["lib/seed_round.sh (confirm_seed.sh in a scratch worktree: demonstration passes without the change, fails with it, cargo test --workspace --offline passes with it): " + ver,
                         "check run against the patch in a private mount namespace (lib/shadow_seedtest.sh / lib/try_seed.sh) with /repo at " + subprocess.run(["git", "-C", "/repo", "log", "--format=%h", "-1"], capture_output=True, text=True).stdout.strip()]
 m["detection"] = det
